@@ -36,7 +36,7 @@ LEVEL = "fault_enumeration"
 RULE = (
     "random: config (pool class, size 1-2, overflow 0-1, pre_ping, recycle, reset_on_return, lifo, warm-up, listeners) x history (<=25 ops of "
     "co-conn/co-raw/use/write/commit/rollback/ci/invalidate hard|soft/detach/gc-drop/tick/pool.dispose/engine.dispose, holders by index) x fault plan "
-    "(2-5 faults [site, k, kind] over connect/ping/rollback/commit/close/cursor/execute/ev_checkout/ev_reset). enum: fixed 11-op QueuePool history x "
+    "(2-5 faults [site, k, kind] over connect/ping/rollback/commit/close/cursor/execute/ev_checkout/ev_reset, plus the targeted site discard = k-th return of a connection to a full QueuePool queue (or close of a detached one) with kinds BaseException-from-dbapi-close / raising close, close_detached or checkin listener). enum: fixed 11-op QueuePool history x "
     "4 configs x every single fault (site, k <= calls made in the fault-free run, kind) [thorough: + every pair of faults]. "
     "Non-trivial: >=2 injected faults actually fired at different sites, or a fault fired while another was being handled (same op), "
     "or (enum) the single fault fired; distinct = canonical JSON of (cfg, ops, plan)"
@@ -50,6 +50,8 @@ ASSUMPTIONS = [
     "StaticPool is driven without disconnect-classified faults and soft invalidation (its docstring: invalidation / reconnect 'only partially supported ... may not yield good results')",
     "SingletonThreadPool: garbage is collected before Pool.dispose() (its dispose() clears _all_conns but not the thread-local record weakref, so a record kept alive by "
     "uncollected garbage of a failed checkout would be re-used untracked - GC-timing dependent, kept out to stay deterministic)",
+    "BaseException from DBAPI close() and raising close / close_detached / checkin listeners are injected only at the discard-on-return site (overflow connection returned to a full queue, detached close); "
+    "a connection whose close a raising listener vetoed is exempt from the leak / reuse rules; a raising checkin listener is a known finding (record never returned) excluded by construction and pinned",
     "known findings excluded by construction and pinned: (1) a fault in the first-connect initialisation / connect listener drops the new connection without close(), "
     "(2) a reset-on-return failure while closing a detached connection skips its close() "
     "(a third one, invalidate() of a detached connection never closing it, is repaired in /repo and generated again)",
@@ -58,8 +60,10 @@ ASSUMPTIONS = [
     "pool_timeout=0 so an exhausted QueuePool raises TimeoutError immediately instead of blocking",
 ]
 
-_INJ = re.compile(r"injected (?:disconnect|error) at (\w+)#(\d+)")
-SITES = ["connect", "ping", "rollback", "commit", "close", "cursor", "execute", "ev_checkout", "ev_reset"]
+SIG_CHECKIN = "C26/accounting/slot-lost-after-failed-checkin-listener"
+_INJ = re.compile(r"injected (?:disconnect|error|base) at (\w+)#(\d+)")
+SITES = ["connect", "ping", "rollback", "commit", "close", "cursor", "execute", "ev_checkout", "ev_reset", "discard"]
+DISCARD_KINDS = ["base", "ev_close", "ev_close_detached", "ev_checkin"]
 ONE_HOLDER = ("static", "singleton", "assertion")
 
 
@@ -92,7 +96,8 @@ class _Run:
         elif cfg["pool"] == "singleton":
             kw.update(pool_size=cfg["size"])
         self.eng = self.db.engine(**kw)
-        self.events = F.PoolEvents(self.eng, self.db) if cfg["events"] else None
+        self.events = F.PoolEvents(self.eng, self.db, more=True) if cfg["events"] else None
+        self.errs = (sa.exc.SQLAlchemyError, F.fakedb.Error, F.InjectedBaseException)
         self.pools = [self.eng.pool]
         self.holders = []
         self.bans = F.Bans(self.db)
@@ -106,6 +111,9 @@ class _Run:
         self.excluded = []
         self.generation_banned = set()
         self.last_surfaced = None
+        self.checkin_listener_failed = False
+        self.discard_plan = {}
+        self.discards = 0
 
     # ---- bookkeeping around one op
     def begin_op(self):
@@ -127,6 +135,10 @@ class _Run:
             self.fired += 1
             self.fired_sites.add(site)
             self.cls.add(f"fired:{site}:{kind}")
+            if site in ("ev_close", "ev_close_detached"):
+                self.bans.exempt.add(cid)  # the listener raised before the DBAPI close(): the pool could not discard this connection
+            if site == "ev_checkin":
+                self.checkin_listener_failed = True
             if site == "ping" and kind == "disconnect":
                 self.pool_wide(cid, "it is older than a failed pre-ping (pool-wide invalidation)")
             elif site == "ev_checkout" and kind == "disconnect_pool":
@@ -139,6 +151,10 @@ class _Run:
                 self.pool_wide(cid, "it is older than a disconnect detected by a Connection (pool-wide invalidation)")
             elif ctxkind == "raw-release" and site in ("rollback", "commit", "ev_reset"):
                 self.bans.ban(cid, "its reset-on-return failed")
+
+    def open_ids(self):
+        """connections never closed, not counting those whose close a raising "close"/"close_detached" listener vetoed"""
+        return [i for i in F.open_ids(self.db) if i not in self.bans.exempt]
 
     def pool_wide(self, cid, reason):
         """Pool._invalidate is generational (its docstring): a failure on a connection that already belongs to an
@@ -252,7 +268,7 @@ class _Run:
         self.begin_op()
         try:
             obj = self.eng.connect() if kind == "conn" else self.eng.raw_connection()
-        except (self.sa.exc.SQLAlchemyError, F.fakedb.Error) as e:
+        except self.errs as e:
             label = self.surfaced(e, f"checkout({kind})")
             nf = self.new_faults()
             self.account_faults("checkout")
@@ -268,7 +284,7 @@ class _Run:
                 raise Violation("C26/recovery/checkout-fails-without-fault", f"checkout({kind}) raised {label} ({e}) although no fault fired in it; trace={self.trace}")
             if all(site == "ping" and k == "disconnect" for _, site, _, k in nf):
                 raise Violation("C26/recovery/ping-disconnect-not-transparent", f"checkout({kind}) raised {label} although the only fault was a disconnect on pre-ping; trace={self.trace}")
-            if kind == "conn" and not label.startswith("wrapped:") and label not in ("InvalidRequestError",):
+            if kind == "conn" and not label.startswith(("wrapped:", "base:")) and label not in ("InvalidRequestError",):
                 raise Violation("C26/error/not-wrapped", f"Engine.connect() surfaced {label}; trace={self.trace}")
             return
         if at_capacity:
@@ -298,7 +314,7 @@ class _Run:
                 cur.close()
             else:
                 h.obj.exec_driver_sql(stmt)
-        except (self.sa.exc.SQLAlchemyError, F.fakedb.Error) as e:
+        except self.errs as e:
             label = self.surfaced(e, f"use({h.kind})")
             self.account_faults("conn-op" if h.kind == "conn" else "raw-op", raised=True)
             if h.kind == "raw" and isinstance(e, F.fakedb.DisconnectError):
@@ -342,7 +358,7 @@ class _Run:
         self.begin_op()
         try:
             getattr(h.obj, m)()
-        except (self.sa.exc.SQLAlchemyError, F.fakedb.Error) as e:
+        except self.errs as e:
             self.surfaced(e, f"Connection.{m}")
             self.account_faults("conn-op", raised=True)
             self.after_conn_op(h, m)
@@ -364,7 +380,7 @@ class _Run:
             self.begin_op()
             try:
                 getattr(h.obj, m)()
-            except (self.sa.exc.SQLAlchemyError, F.fakedb.Error) as e:
+            except self.errs as e:
                 self.surfaced(e, f"raw.{m}")
                 self.account_faults("raw-op")
                 if isinstance(e, F.fakedb.DisconnectError):
@@ -389,7 +405,7 @@ class _Run:
                 if h.obj.closed:
                     return
                 h.obj.invalidate()
-        except (self.sa.exc.SQLAlchemyError, F.fakedb.Error) as e:
+        except self.errs as e:
             self.surfaced(e, "invalidate")
         self.account_faults("other")
         if cid is not None:
@@ -410,7 +426,7 @@ class _Run:
         self.begin_op()
         try:
             h.obj.detach()
-        except (self.sa.exc.SQLAlchemyError, F.fakedb.Error) as e:
+        except self.errs as e:
             self.surfaced(e, "detach")
         self.account_faults("other")
         h.state = "detached"
@@ -425,10 +441,11 @@ class _Run:
             via_gc = False  # a detached connection is the caller's to close (pool docs); dropping it is the caller's leak
         det_cid = self.cur_cid(h) if was_detached else None
         self.strip_for_detached(h, ("rollback", "commit", "ev_reset"), False)
+        self.arm_discard_fault(h)
         if not via_gc:
             try:
                 h.obj.close()
-            except (self.sa.exc.SQLAlchemyError, F.fakedb.Error) as e:
+            except self.errs as e:
                 self.surfaced(e, f"close({kind})")
                 failed = True
                 self.cls.add("close-raised")
@@ -448,11 +465,39 @@ class _Run:
                                 f"reset-on-return and close() was never attempted; trace={self.trace}", observed=det_cid)
         self.quiescent_check_if_idle()
 
+    def arm_discard_fault(self, h):
+        """fault site "discard": the release about to happen returns a connection to a FULL QueuePool queue, which discards it
+        (QueuePool._do_return_conn -> record.close()), or closes a detached connection.  Kinds: "base" = the DBAPI close() raises a
+        BaseException subclass (re-raised by Pool._close_connection); "ev_close" / "ev_checkin" / "ev_close_detached" = that pool
+        listener raises an Exception."""
+        if self.cfg["pool"] != "queue" or h.pool is not self.eng.pool or self.cur_cid(h) is None:
+            return
+        detached = h.state == "detached"
+        if not detached and not (h.state == "held" and h.pool.checkedin() >= h.pool.size()):
+            return
+        n = self.discards
+        self.discards += 1
+        kind = self.discard_plan.get(n)
+        if kind is None:
+            return
+        if detached != (kind == "ev_close_detached"):
+            return
+        self.cls.add("discard-on-return-fault:" + kind)
+        if kind == "base":
+            self.db.plan[("close", self.db.counts["close"])] = "base"
+        elif self.events is not None:
+            self.events.plan[(kind, self.events.counts[kind])] = "error"
+
     def op_dispose(self, engine_level):
         if engine_level and self.cfg["pool"] in ONE_HOLDER and [h for h in self.holders if h.state != "gone"]:
             return  # these pools close their (shared) connection on dispose even while it is checked out
+        self.begin_op()
         if engine_level:
-            self.eng.dispose()
+            try:
+                self.eng.dispose()
+            except self.errs as e:
+                self.surfaced(e, "engine.dispose")
+            self.account_faults("other")
             if self.eng.pool is not self.pools[-1]:
                 self.pools.append(self.eng.pool)
             self.cls.add("engine.dispose")
@@ -464,7 +509,11 @@ class _Run:
                 # alive by uncollected garbage (failed checkout) would be re-used untracked.  GC-timing dependent ->
                 # made deterministic here (reported as an observation, see ASSUMPTIONS)
                 gc.collect()
-            self.eng.pool.dispose()
+            try:
+                self.eng.pool.dispose()
+            except self.errs as e:
+                self.surfaced(e, "pool.dispose")
+            self.account_faults("other")
             self.cls.add("pool.dispose")
 
     # ---- invariants
@@ -490,17 +539,23 @@ class _Run:
         pool = self.eng.pool
         self.check_dropped_on_connect()
         if self.cfg["pool"] == "queue":
+            if pool.checkedout() != 0 and self.checkin_listener_failed:
+                raise Violation(SIG_CHECKIN, f"a \"checkin\" listener raised: the connection record was never given back to the pool; no holder left but "
+                                f"checkedout()={pool.checkedout()} ({pool.status()}); {t}", observed=pool.checkedout(), expected=0)
+            if pool.overflow() != pool.checkedin() - pool.size():
+                raise Violation("C26/accounting/overflow-inconsistent", f"no holder left: overflow()={pool.overflow()} but checkedin()-size()={pool.checkedin() - pool.size()} "
+                                f"({pool.status()}); {t}", observed=pool.overflow(), expected=pool.checkedin() - pool.size())
             if pool.checkedout() != 0:
                 raise Violation("C26/accounting/checkedout-nonzero", f"no holder left but QueuePool.checkedout()={pool.checkedout()} ({pool.status()}); {t}",
                                 observed=pool.checkedout(), expected=0)
             if len(self.pools) == 1:
-                n_open = len(F.open_ids(self.db))
+                n_open = len(self.open_ids())
                 if n_open > self.cfg["size"]:
                     raise Violation("C26/accounting/too-many-idle", f"no holder left, {n_open} connections still open > pool_size {self.cfg['size']}; {t}",
                                     observed=n_open, expected=f"<= {self.cfg['size']}")
         elif self.cfg["pool"] == "null":
-            if F.open_ids(self.db):
-                raise Violation("C26/leak/nullpool-keeps-connection", f"NullPool: no holder left but connections {F.open_ids(self.db)} never had close() attempted; {t}")
+            if self.open_ids():
+                raise Violation("C26/leak/nullpool-keeps-connection", f"NullPool: no holder left but connections {self.open_ids()} never had close() attempted; {t}")
 
     def finish(self):
         # release every holder (faults still armed), innermost bookkeeping as for ops
@@ -534,7 +589,7 @@ class _Run:
         # every pool generation disposed -> close() attempted on everything ever opened
         for p in self.pools:
             p.dispose()
-        leaked = F.open_ids(self.db)
+        leaked = self.open_ids()
         if leaked:
             how = {i: [(s, d) for c, s, d in self.db.log if c == i][:6] for i in leaked}
             raise Violation("C26/leak/open-connection-after-dispose", f"connections {leaked} were opened by the pool, are held by nobody and survive dispose() of every pool; "
@@ -558,6 +613,12 @@ def _run_case(case, ctx, enum=False):
         if len(kept) != len(case["plan"]):
             ctx.exclude("fault in the first-connect initialisation rollback (known finding: connection dropped without close())")
             case = dict(case, plan=kept)
+    if not case.get("pinned"):
+        kept = [f for f in case["plan"] if not (f[0] == "discard" and f[2] == "ev_checkin")]
+        if len(kept) != len(case["plan"]):
+            # known finding: a raising "checkin" listener makes _ConnectionRecord.checkin() skip pool._return_conn(): the slot is lost
+            ctx.exclude("fault in a \"checkin\" listener (known finding: the record is never returned, pool slot lost)")
+            case = dict(case, plan=kept)
     if cfg["pool"] == "static":
         # StaticPool documents invalidation / reconnect as "only partially supported ... may not yield good
         # results" (it replaces its record without closing the superseded connection): keep disconnects and
@@ -574,7 +635,8 @@ def _run_case(case, ctx, enum=False):
                 c = run.eng.connect()
                 c.close()
                 run.handed_out.update(x.id for x in run.db.conns)
-            F.arm(run.db, case["plan"], run.events)
+            F.arm(run.db, [f for f in case["plan"] if f[0] != "discard"], run.events)
+            run.discard_plan = {f[1]: f[2] for f in case["plan"] if f[0] == "discard"}
             try:
                 for op in case["ops"]:
                     run.trace.append(_short(op))
@@ -634,11 +696,17 @@ def _run_case(case, ctx, enum=False):
 
 
 def check_random(case, ctx):
-    _run_case(case, ctx)
+    try:
+        _run_case(case, ctx)
+    except F.InjectedBaseException as e:  # must never leave the check: a BaseException would kill the worker process
+        raise RuntimeError(f"harness: injected BaseException escaped the interpreter: {e}") from e
 
 
 def check_enum(case, ctx):
-    _run_case(case, ctx, enum=True)
+    try:
+        _run_case(case, ctx, enum=True)
+    except F.InjectedBaseException as e:
+        raise RuntimeError(f"harness: injected BaseException escaped the interpreter: {e}") from e
 
 
 # ------------------------------------------------------------------ generators
@@ -689,6 +757,8 @@ def _cases(draw):
         sites += ["commit"]
     if cfg["events"]:
         sites += ["ev_checkout", "ev_checkout", "ev_reset"]
+    if cfg["pool"] == "queue":
+        sites += ["discard", "discard"]
     n = draw(st.integers(2, 5))
     plan, seen = [], set()
     for _ in range(n):
@@ -703,6 +773,11 @@ def _cases(draw):
             kind = draw(st.sampled_from(["disconnect", "disconnect_pool", "error"]))
         elif site == "ev_reset":
             kind = "error"
+        elif site == "discard":
+            k = min(k, 1)
+            if (site, k) in seen:
+                continue
+            kind = draw(st.sampled_from(DISCARD_KINDS if cfg["events"] else ["base"]))
         else:
             kind = draw(st.sampled_from(["disconnect", "error"]))
         plan.append([site, k, kind])
@@ -722,7 +797,16 @@ def _cases(draw):
     extra = draw(st.lists(_opst, max_size=6))
     for op in extra:
         ops.insert(draw(st.integers(0, len(ops))), op)
-    return {"cfg": cfg, "ops": ops[:25], "plan": plan}
+    ops = ops[:25]
+    if cfg["pool"] == "queue" and draw(st.integers(0, 3)) == 0:
+        # scenario: more holders than pool_size, all returned -> the last returns hit a full queue and are discarded
+        cfg = dict(cfg, overflow=1)
+        n = cfg["size"] + 1
+        head = [["co", draw(st.sampled_from(["conn", "raw"]))] for _ in range(n)] + [[draw(st.sampled_from(["use", "write"])), draw(_i)] for _ in range(draw(st.integers(0, 2)))]
+        head += [[draw(st.sampled_from(["ci", "ci", "gc"])), 0] for _ in range(n)]
+        ops = (head + ops)[:25]
+        plan = [f for f in plan if f[0] != "discard"] + [["discard", draw(st.integers(0, 1)), draw(st.sampled_from(DISCARD_KINDS[:2] if cfg["events"] else ["base"]))]]
+    return {"cfg": cfg, "ops": ops, "plan": plan}
 
 
 # ---- fixed history, every single (and, thorough, double) fault
@@ -733,7 +817,7 @@ ENUM_CFGS = [
     {"pool": "queue", "size": 2, "overflow": 0, "pre_ping": True, "recycle": -1, "reset": "rollback", "lifo": False, "warm": False, "events": False},
     {"pool": "null", "size": 1, "overflow": 0, "pre_ping": True, "recycle": -1, "reset": "rollback", "lifo": False, "warm": True, "events": True},
 ]
-_KINDS = {"ev_checkout": ["disconnect", "disconnect_pool", "error"], "ev_reset": ["error"]}
+_KINDS = {"ev_checkout": ["disconnect", "disconnect_pool", "error"], "ev_reset": ["error"], "discard": DISCARD_KINDS}
 
 
 def _fault_free_counts(cfg):
@@ -768,6 +852,7 @@ def _fault_free_counts(cfg):
             counts[s] = max(run.db.counts[s] - base.get(s, 0), 2)
         for s in F.EVENT_SITES:
             counts[s] = max(run.events.counts[s] - ebase.get(s, 0), 2) if run.events else 0
+        counts["discard"] = 1 if cfg["pool"] == "queue" else -1
         run.holders = []
         for p in run.pools:
             p.dispose()
